@@ -189,15 +189,17 @@ From DG Require Import ThriftWireProofs T2JBytes T2JBytesProofs.
    depth limits (walk fuel n; SkipGo's 1023 for the unknown fields): the walk over the encoding followed by any bytes r
    returns the canonical text of the spec tree and exactly r, or fails when the spec has no text — for every choice fd of
    the lexeme written for a finite double (check 304 runs the walk with a marker for fd) *)
-Theorem C03_t2j_walk_refines_spec_gen : forall fd o v d n r, o_value_mapping o = false ->
+Theorem C03_t2j_walk_refines_spec_gen : forall fd o v d n r,
+  o_value_mapping o = false -> o_write_default o = false -> o_write_required o = false ->
   wf v = true -> conforms v d = true -> desc_wf d = true -> (depth v <= n)%nat -> (depth v <= max_skip_depth)%nat ->
   t2j_walk_gen fd o n d (encode v ++ r) =
   match spec_text_fd fd (json_of o d v) with Some txt => Some (txt, r) | None => None end.
-Proof. intros fd o v d n r Hvm. exact (walk_refines fd o Hvm v d n r). Qed.
+Proof. intros fd o v d n r Hvm Hwd Hwr. exact (walk_refines fd o Hvm Hwd Hwr v d n r). Qed.
 Print Assumptions C03_t2j_walk_refines_spec_gen.
 
 (* with the spec's lexeme (the exact decimal of the bits): the text is json_print (to_json e), the printer of C03_expected_tree_parses *)
-Theorem C03_t2j_walk_refines_spec : forall o v d n r, o_value_mapping o = false ->
+Theorem C03_t2j_walk_refines_spec : forall o v d n r,
+  o_value_mapping o = false -> o_write_default o = false -> o_write_required o = false ->
   wf v = true -> conforms v d = true -> desc_wf d = true -> (depth v <= n)%nat -> (depth v <= max_skip_depth)%nat ->
   t2j_walk n o d (encode v ++ r) =
   match json_of o d v with
@@ -205,34 +207,76 @@ Theorem C03_t2j_walk_refines_spec : forall o v d n r, o_value_mapping o = false 
   | _ => None
   end.
 Proof.
-  intros o v d n r Hvm Hw Hc Hdw Hd Hs. rewrite (walk_refines_exact o v d n r Hvm Hw Hc Hdw Hd Hs).
+  intros o v d n r Hvm Hwd Hwr Hw Hc Hdw Hd Hs. rewrite (walk_refines_exact o v d n r Hvm Hwd Hwr Hw Hc Hdw Hd Hs).
   unfold walk_res, spec_text. destruct (json_of o d v) as [e| |]; try reflexivity. destruct (jexp_finite e); reflexivity.
 Qed.
 Print Assumptions C03_t2j_walk_refines_spec.
 
+(* ALL MODELLED OPTIONS (api.js_conv value mapping, WriteDefaultField, WriteRequireField on top of the five above): the walk
+   prints the spec tree json_ofw of model/T2JUnset.v — js_conv fields as quoted literals, the unmet required / default fields
+   appended in ascending id with their zero values — or fails exactly when that spec has no text.  No hypothesis on o. *)
+Theorem C03_t2j_walk_refines_specw : forall o v d n r,
+  wf v = true -> conforms v d = true -> desc_wf d = true -> (depth v <= n)%nat -> (depth v <= max_skip_depth)%nat ->
+  t2j_walk n o d (encode v ++ r) =
+  match json_ofw o d v with
+  | TOk e => if jexp_finite e then Some (json_print (to_json e), r) else None
+  | _ => None
+  end.
+Proof.
+  intros o v d n r Hw Hc Hdw Hd Hs. rewrite (walk_refines_exact_w o v d n r Hw Hc Hdw Hd Hs).
+  unfold walk_res, spec_text. destruct (json_ofw o d v) as [e| |]; try reflexivity. destruct (jexp_finite e); reflexivity.
+Qed.
+Print Assumptions C03_t2j_walk_refines_specw.
+
+(* the same for every double lexeme function whose lexemes need no escaping between quotes (needed only under value mapping,
+   where a js_conv double is printed as a JSON string) *)
+Theorem C03_t2j_walk_refines_specw_gen : forall fd o v d n r,
+  (o_value_mapping o = true -> forall b, forallb plain (fd b) = true) ->
+  wf v = true -> conforms v d = true -> desc_wf d = true -> (depth v <= n)%nat -> (depth v <= max_skip_depth)%nat ->
+  t2j_walk_gen fd o n d (encode v ++ r) =
+  match spec_text_fd fd (json_ofw o d v) with Some txt => Some (txt, r) | None => None end.
+Proof. intros fd o v d n r Hfd. exact (walk_refines_w fd o Hfd v d n r). Qed.
+Print Assumptions C03_t2j_walk_refines_specw_gen.
+
+(* the root (do): with thrift base extraction too — a response-base field is skipped and yields no member — the text is that
+   of the root spec t2j_specw (ConvertException off) *)
+Theorem C03_t2j_walk_root_refines_specw : forall o v d n r, o_convert_exception o = false ->
+  wf v = true -> conforms v d = true -> desc_wf d = true -> base_is_struct d ->
+  (depth v <= n)%nat -> (depth v <= max_skip_depth)%nat ->
+  t2j_walk_root f64_exact_lexeme o n d (encode v ++ r) =
+  match fst (t2j_specw o d v) with
+  | TOk e => if jexp_finite e then Some (json_print (to_json e), r) else None
+  | _ => None
+  end.
+Proof.
+  intros o v d n r Hce Hw Hc Hdw Hbs Hd Hs. rewrite (walk_root_refines_exact o v d n r Hce Hw Hc Hdw Hbs Hd Hs).
+  unfold walk_res, spec_text. destruct (fst (t2j_specw o d v)) as [e| |]; try reflexivity. destruct (jexp_finite e); reflexivity.
+Qed.
+Print Assumptions C03_t2j_walk_root_refines_specw.
+
 (* the walk errs EXACTLY when the spec errs (unknown field under DisallowUnknownField, unsupported map key type, missing
-   required field) or the tree holds a non-finite double *)
-Theorem C03_t2j_walk_error_iff : forall o v d n r, o_value_mapping o = false ->
+   required field without WriteRequireField, js_conv on an unsupported type) or the tree holds a non-finite double *)
+Theorem C03_t2j_walk_error_iff : forall o v d n r,
   wf v = true -> conforms v d = true -> desc_wf d = true -> (depth v <= n)%nat -> (depth v <= max_skip_depth)%nat ->
   (t2j_walk n o d (encode v ++ r) = None <->
-   (exists c, json_of o d v = TErr c) \/ (exists e, json_of o d v = TOk e /\ jexp_finite e = false)).
-Proof. intros o v d n r. exact (walk_error_iff o v d n r). Qed.
+   (exists c, json_ofw o d v = TErr c) \/ (exists e, json_ofw o d v = TOk e /\ jexp_finite e = false)).
+Proof. intros o v d n r. exact (walk_error_iff_w o v d n r). Qed.
 Print Assumptions C03_t2j_walk_error_iff.
 
 (* never malformed with a nil error, at algorithm level: whatever text the walk returns is parsed by the proved parser to
    the JSON of the spec tree, and the walk has consumed exactly the encoding *)
-Theorem C03_t2j_walk_output_valid : forall o v d n r txt r', o_value_mapping o = false ->
+Theorem C03_t2j_walk_output_valid : forall o v d n r txt r',
   wf v = true -> conforms v d = true -> desc_wf d = true -> desc_ok d = true ->
   (depth v <= n)%nat -> (depth v <= max_skip_depth)%nat ->
   t2j_walk n o d (encode v ++ r) = Some (txt, r') ->
-  exists e, json_of o d v = TOk e /\ jexp_finite e = true /\
+  exists e, json_ofw o d v = TOk e /\ jexp_finite e = true /\
             txt = json_print (to_json e) /\ json_parse txt = Some (to_json e) /\ r' = r.
-Proof. intros o v d n r txt r'. exact (walk_output_valid o v d n r txt r'). Qed.
+Proof. intros o v d n r txt r'. exact (walk_output_valid_w o v d n r txt r'). Qed.
 Print Assumptions C03_t2j_walk_output_valid.
 
-(* Do under the walk's options (no value mapping, no thrift base extraction, no ConvertException): the walk's text is the
-   text of the model conversion t2j_text (the root loop of do is the struct loop of doRecurse) *)
-Theorem C03_t2j_walk_is_model_text : forall o v d n, walk_opts o = true ->
+(* Do under the first development's options (no value mapping, no thrift base extraction, no ConvertException, write options
+   off): the walk's text is the text of the model conversion t2j_text *)
+Theorem C03_t2j_walk_is_model_text : forall o v d n, walk_opts o = true -> o_write_default o = false -> o_write_required o = false ->
   wf v = true -> conforms v d = true -> desc_wf d = true -> (depth v <= n)%nat -> (depth v <= max_skip_depth)%nat ->
   t2j_walk n o d (encode v) = match t2j_text o d v with Some txt => Some (txt, []) | None => None end.
 Proof. exact walk_is_t2j_text. Qed.
@@ -276,7 +320,8 @@ Print Assumptions C03_text_agrees_plain.
    is spelled by a JSON number lexeme denoting exactly its bits; the walk's own text is the same tokens with exact decimals ---- *)
 From DG Require Import T2JBytesTok.
 
-Theorem C03_check304_sound : forall o v d n r m r' out, o_value_mapping o = false ->
+Theorem C03_check304_sound : forall o v d n r m r' out,
+  o_value_mapping o = false -> o_write_default o = false -> o_write_required o = false ->
   wf v = true -> conforms v d = true -> desc_wf d = true -> desc_ok d = true ->
   (depth v <= n)%nat -> (depth v <= max_skip_depth)%nat ->
   t2j_walk_gen fd_mark o n d (encode v ++ r) = Some (m, r') ->
@@ -285,7 +330,8 @@ Theorem C03_check304_sound : forall o v d n r m r' out, o_value_mapping o = fals
 Proof. exact check304_sound. Qed.
 Print Assumptions C03_check304_sound.
 
-Theorem C03_walk_text_tokens : forall o v d n r txt r', o_value_mapping o = false ->
+Theorem C03_walk_text_tokens : forall o v d n r txt r',
+  o_value_mapping o = false -> o_write_default o = false -> o_write_required o = false ->
   wf v = true -> conforms v d = true -> desc_wf d = true ->
   (depth v <= n)%nat -> (depth v <= max_skip_depth)%nat ->
   t2j_walk n o d (encode v ++ r) = Some (txt, r') ->
@@ -334,3 +380,19 @@ Print Assumptions C03_lex2f64_is_f64.
 Theorem C03_lex_is_f64_iff : forall l b, lex_is_f64 l b = true <-> lex2f64 l = Some b.
 Proof. exact Dec2FloatCorrect.lex_is_f64_iff. Qed.
 Print Assumptions C03_lex_is_f64_iff.
+
+(* non-vacuity of the extended walk: api.js_conv (bit 5) prints the byte field x of the nested struct as the quoted literal -1;
+   WriteDefaultField + WriteRequireField (bits 9, 10) append d, bin, s (ascending id; the optional m is not written);
+   a response-base field is dropped at the root when a BaseResp is in the context (bits 6, 8) *)
+Example C03_walk_example_w :
+  t2j_walk 4 32 ex_desc (encode ex_val) = option_map (fun t => (t, [])) (spec_text (json_ofw 32 ex_desc ex_val)) /\
+  option_map (fun m => existsb (fun c => c =? 45) (fst m)) (t2j_walk 4 32 ex_desc (encode (VStruct [(1, VDouble 0); (4, VStruct [(1, VByte (-1))])]))) = Some true /\
+  t2j_walk 4 (2 ^ 9 + 2 ^ 10) ex_desc (encode (VStruct [(9, VI16 7)])) =
+    Some ([123; 34; 100; 34; 58; 48; 44; 34; 98; 105; 110; 34; 58; 34; 34; 44; 34; 115; 34; 58; 123; 125; 125], []) /\
+  t2j_walk 4 (2 ^ 9) ex_desc (encode (VStruct [(9, VI16 7)])) = None /\
+  (let d := DStruct [({| f_id := 1; f_key := [97]; f_req := 0; f_flags := 0 |}, DScalar T_I32);
+                     ({| f_id := 255; f_key := [66]; f_req := 0; f_flags := 2 |}, DStruct [])] in
+   let v := VStruct [(255, VStruct [(1, VString [120])]); (1, VI32 5)] in
+   t2j_walk_root f64_exact_lexeme (2 ^ 6 + 2 ^ 8) 3 d (encode v) = Some ([123; 34; 97; 34; 58; 53; 125], []) /\
+   t2j_walk_root f64_exact_lexeme (2 ^ 6) 3 d (encode v) = Some ([123; 34; 66; 34; 58; 123; 125; 44; 34; 97; 34; 58; 53; 125], [])).
+Proof. vm_compute. repeat split; reflexivity. Qed.
